@@ -84,13 +84,29 @@ theorem natValue_at (r : Rd) (buf : Bytes) (p x : Nat) (t : Bytes) (h : At r buf
     (hb : buf.drop p = be (natLen x) x ++ t) (hx : x < 2 ^ 64) :
     ∃ r', readNat r (natLen x) 64 = .ok (x, r') ∧ At r' buf (p + natLen x) := by
   obtain ⟨hx1, hx2⟩ := natLen_bound x hx
-  obtain ⟨r1, e1, a1, _⟩ := readNat_at R r buf p (natLen x) x 64 t h hb hx1 hx2
-  rw [Nat.mod_eq_of_lt hx] at e1
-  exact ⟨r1, e1, a1⟩
+  obtain ⟨hle, htk, _⟩ := drop_append_len h.2.2 hb
+  rw [be_length] at hle htk
+  obtain ⟨r1, e1, a1, _⟩ := readBytesAcc_at R (natLen x) r buf p 0 h hle
+  refine ⟨r1, ?_, a1⟩
+  have hg : ¬ (natLen x > r.length - r.pos) := by rw [R.pos_eq r buf p h, R.length_eq r buf p h]; omega
+  have hneg : negInt (natLen x) = false := by
+    have := natLen_le_dt x
+    simp [negInt]; omega
+  simp [readNat, hneg, hg, e1, htk, accBytes_be _ x hx1 hx2, Nat.mod_eq_of_lt hx]
 
-theorem allocGuard_at (r : Rd) (buf : Bytes) (p l : Nat) (h : At r buf p) (hle : p + l ≤ buf.length) :
-    allocGuard r l = .ok () := by
-  simp [allocGuard, R.pos_eq r buf p h, R.length_eq r buf p h]; intro h1; omega
+theorem lenGuard_at (r : Rd) (buf : Bytes) (p l : Nat) (h : At r buf p) (hle : p + l ≤ buf.length) :
+    lenGuard r l = .ok () := by
+  simp [lenGuard, R.pos_eq r buf p h, R.length_eq r buf p h]; omega
+
+/-- a string field (`io.CopyN`) of a length that is a non-negative `int` -/
+theorem strValue_at (r : Rd) (buf : Bytes) (p : Nat) (v t : Bytes) (h : At r buf p)
+    (hb : buf.drop p = v ++ t) (hlen : buf.length < 2 ^ 63) :
+    ∃ r', readString r v.length = .ok (v, r') ∧ At r' buf (p + v.length) := by
+  obtain ⟨hle, htk, _⟩ := drop_append_len h.2.2 hb
+  obtain ⟨r1, e1, a1⟩ := R.readFull_ok r buf p v.length h hle
+  rw [htk] at e1
+  have hneg : negInt v.length = false := by simp [negInt]; omega
+  exact ⟨r1, by simp [readString, hneg, e1], a1⟩
 
 theorem binValue_at (r : Rd) (buf : Bytes) (p : Nat) (v t : Bytes) (h : At r buf p)
     (hb : buf.drop p = v ++ t) :
@@ -133,7 +149,7 @@ theorem meta_l3 (fuel : Nat) (r : Rd) (buf : Bytes) (p : Nat) (ct fresh : Option
       r buf p 26 v [] h hb (by omega) hlen hf (by
         intro r2 p2 a2 _ d2 hle
         obtain ⟨r3, e3, a3⟩ := binValue_at R r2 buf p2 v [] a2 d2
-        exact ⟨r3, by simp [metaBody, allocGuard_at R r2 buf p2 v.length a2 hle, e3], a3⟩)
+        exact ⟨r3, by simp [metaBody, lenGuard_at R r2 buf p2 v.length a2 hle, e3], a3⟩)
     exact ⟨r3, by rw [e3]; exact tlvLoop_end' R _ _ _ r3 buf p3 a3 d3 (by omega)⟩
 
 theorem meta_l2 (fuel : Nat) (r : Rd) (buf : Bytes) (p : Nat) (ct fresh : Option Nat) (fb : Option Bytes)
@@ -197,7 +213,7 @@ theorem val_l2 (fuel : Nat) (r : Rd) (buf : Bytes) (p : Nat) (a : Option Bytes) 
   obtain ⟨r3, p3, a3, d3, f3, e3⟩ := tlvLoop_field R validityBody fuel (a, none) (a, some b)
     r buf p 255 b [] h hb (by omega) hlen hf (by
       intro r2 p2 a2 _ d2 hle
-      obtain ⟨r3, e3, a3⟩ := binValue_at R r2 buf p2 b [] a2 d2
+      obtain ⟨r3, e3, a3⟩ := strValue_at R r2 buf p2 b [] a2 d2 (by omega)
       exact ⟨r3, by simp [validityBody, e3], a3⟩)
   exact ⟨r3, by rw [e3]; exact tlvLoop_end' R _ _ _ r3 buf p3 a3 d3 (by omega)⟩
 
@@ -211,7 +227,7 @@ theorem val_l1 (fuel : Nat) (r : Rd) (buf : Bytes) (p : Nat) (v : Bytes × Bytes
   obtain ⟨r3, p3, a3, d3, f3, e3⟩ := tlvLoop_field R validityBody fuel (none, none) (some v.1, none)
     r buf p 254 v.1 _ h hb (by omega) hlen hf (by
       intro r2 p2 a2 _ d2 hle
-      obtain ⟨r3, e3, a3⟩ := binValue_at R r2 buf p2 v.1 _ a2 d2
+      obtain ⟨r3, e3, a3⟩ := strValue_at R r2 buf p2 v.1 _ a2 d2 (by omega)
       exact ⟨r3, by simp [validityBody, e3], a3⟩)
   rw [e3]
   exact val_l2 R _ r3 buf p3 _ v.2 a3 d3 hlen f3
@@ -247,7 +263,7 @@ theorem kl_l2 (fuel : Nat) (r : Rd) (buf : Bytes) (p : Nat) (nm : Option Name) (
       r buf p 29 v [] h hb (by omega) hlen hf (by
         intro r2 p2 a2 _ d2 hle
         obtain ⟨r3, e3, a3⟩ := binValue_at R r2 buf p2 v [] a2 d2
-        exact ⟨r3, by simp [keyLocBody, allocGuard_at R r2 buf p2 v.length a2 hle, e3], a3⟩)
+        exact ⟨r3, by simp [keyLocBody, lenGuard_at R r2 buf p2 v.length a2 hle, e3], a3⟩)
     exact ⟨r3, by rw [e3]; exact tlvLoop_end' R _ _ _ r3 buf p3 a3 d3 (by omega)⟩
 
 include E
@@ -367,7 +383,7 @@ theorem si_l3 (fuel : Nat) (r : Rd) (buf : Bytes) (p : Nat) (ty : Option Nat) (k
       r buf p 38 v _ h hb (by omega) hlen hf (by
         intro r2 p2 a2 _ d2 hle
         obtain ⟨r3, e3, a3⟩ := binValue_at R r2 buf p2 v _ a2 d2
-        exact ⟨r3, by simp [sigInfoBody, allocGuard_at R r2 buf p2 v.length a2 hle, e3], a3⟩)
+        exact ⟨r3, by simp [sigInfoBody, lenGuard_at R r2 buf p2 v.length a2 hle, e3], a3⟩)
     rw [e3]
     exact si_l4 R _ r3 buf p3 ty kl _ ti sq val a3 d3 hvt hv hlen f3
 
